@@ -26,6 +26,9 @@ def evaluate(pid, k, tier, also):
     env = dict(os.environ, PYTHONPATH=wt)
     out = {"property": pid, "k": k}
     sh("git checkout -- .", cwd=wt)
+    head = sh("git -C /repo rev-parse HEAD")[1].strip()
+    sh("git checkout -q --detach %s" % head, cwd=wt)          # seeds are judged on top of /repo's current HEAD
+    out["repo_head"] = head[:7]
     rc, o = sh("git apply %s" % os.path.join(sd, "patch.diff"), cwd=wt)
     if rc != 0:
         out["error"] = "patch does not apply: " + o[-300:]
